@@ -7,7 +7,8 @@
    Byte-payload serializers and the date / quantised-float adapters are NOT
    covered by these theorems (see TRUSTED in harness/props/c09.py). *)
 From Coq Require Import ZArith List String Bool.
-From HV Require Import Subfield.IntAdapters Subfield.IntAdaptersProofs.
+From HV Require Import Subfield.IntAdapters Subfield.IntAdaptersProofs Subfield.Literal Subfield.QuantField
+  Subfield.DateModel Subfield.DatePrim Quant.QuantModel.
 Import ListNotations.
 Open Scope Z_scope.
 
@@ -78,6 +79,85 @@ Theorem C09_pod_is_plain : forall s ctx z v,
 Proof. exact pod_is_plain. Qed.
 Print Assumptions C09_pod_is_plain.
 
+(* ---- the literal clause: repr() of the plain-data form reads back (ast.literal_eval) equal.
+   Printer / parser for the fragment the integer adapters produce (ints, bools, identifier-like
+   names printed as 'NAME', flat tuples incl. "()" and the 1-tuple "('A',)"): Subfield/Literal.v,
+   tied to CPython's repr / literal_eval by the correspondence on the generated values. *)
+Theorem C09_literal_roundtrip : forall p, safe_plit p = true -> parse_plit (print_plit p) = Some p.
+Proof. exact parse_print_plit. Qed.
+Print Assumptions C09_literal_roundtrip.
+
+(* every plain-data value an enum / flag field, a plain adapter or a context-switched adapter
+   produces lies in that fragment (given identifier-like member names) and survives print -> parse *)
+Theorem C09_pod_literal_roundtrip : forall s ctx z v,
+  serializer_names_safe s = true ->
+  s_deserialize s ctx true z = Some (SV v) -> v <> VUnser ->
+  exists p, lit_of_value v = Some p /\ safe_plit p = true /\
+            option_map value_of_lit (parse_plit (print_plit p)) = Some v.
+Proof. exact pod_literal_roundtrip. Qed.
+Print Assumptions C09_pod_literal_roundtrip.
+
+(* ---- quantised-float integer variables (RegionData.TimeDilation): the integer clause over the
+   finite wire domain, decided by evaluating C10's binary64 model on every raw value; the
+   per-key instances and the agreement of that model with the implementation on all 65 536
+   raws are generated (gen/C09_quant_gen.v: C09_quant_registry_lossless) *)
+Theorem C09_quant_field_lossless : forall q t,
+  quant_field_ok q t = true ->
+  forall z, in_wire_range t z -> f2q q (q2f q z) = Some z.
+Proof. exact quant_field_lossless. Qed.
+Print Assumptions C09_quant_field_lossless.
+
+Theorem C09_quant_step_refuted : f2q ex_bad_step (q2f ex_bad_step 40000) <> Some 40000%Z.
+Proof. exact ex_bad_step_refuted. Qed.
+Print Assumptions C09_quant_step_refuted.
+
+(* ---- DateAdapter (CreationDate, ClaimDate, MeanCollision.Time), as coded.
+   FULL statement (false of the code, three known findings): for every zone, multiplier and
+   integer val of the wire type, date_roundtrip ops zone mult val = Some val.
+   Proved part: process time zone UTC, val a whole number of seconds inside datetime's range
+   (year 1..9999), GIVEN that the four float steps are exact on such values (exact_on_seconds,
+   spelled out in Subfield/DateModel.v; true of binary64, assumed here, evaluated on samples for
+   the primitive-float instance in C09_date_hypothesis_samples). *)
+Theorem C09_date_utc_whole_seconds_partial : forall (o : fops) (mult s : Z),
+  exact_on_seconds o mult ->
+  in_datetime_range s = true ->
+  exists str, date_decode o utc mult (s * mult) = Some str /\
+              date_encode o utc mult str = Some (s * mult).
+Proof. exact date_utc_whole_seconds. Qed.
+Print Assumptions C09_date_utc_whole_seconds_partial.
+
+(* its calendar and text ingredients hold unconditionally *)
+Theorem C09_days_civil_roundtrip : forall z,
+  let '(y, m, d) := civil_from_days z in days_from_civil y m d = z.
+Proof. exact days_civil_roundtrip. Qed.
+Print Assumptions C09_days_civil_roundtrip.
+
+Theorem C09_iso_text_roundtrip : forall t, dt_fields_ok t -> parse_iso (print_iso t) = Some t.
+Proof. exact parse_print_iso. Qed.
+Print Assumptions C09_iso_text_roundtrip.
+
+Theorem C09_date_hypothesis_samples :
+  forallb (fun s => negb (in_datetime_range s) || (exact_on 1 s && exact_on 1000000 s)) second_samples = true.
+Proof. exact exact_on_seconds_samples. Qed.
+Print Assumptions C09_date_hypothesis_samples.
+
+(* the three known defect classes, on the binary64 instance (witnesses of the known findings) *)
+Theorem C09_date_subsecond_refuted :
+  date_roundtrip pf_ops utc 1000000 1098554253192844 = Some 1098554253192843%Z.
+Proof. exact date_subsecond_refuted. Qed.
+Print Assumptions C09_date_subsecond_refuted.
+
+Theorem C09_date_out_of_range_refuted :
+  date_decode pf_ops utc 1000000 (2 ^ 63) = None /\ date_decode pf_ops utc 1000000 (253402300800 * 1000000) = None.
+Proof. exact date_out_of_range_refuted. Qed.
+Print Assumptions C09_date_out_of_range_refuted.
+
+Theorem C09_date_dst_fold_refuted :
+  date_roundtrip pf_ops new_york_2021 1 1636266600 = Some 1636263000%Z
+  /\ date_roundtrip pf_ops new_york_2021 1000000 1636266600000000 = Some 1636263000000000%Z.
+Proof. exact date_dst_fold_refuted. Qed.
+Print Assumptions C09_date_dst_fold_refuted.
+
 (* the well-formedness hypotheses are necessary: each is refuted when dropped *)
 Theorem C09_multibit_member_refuted : ~ lossless_at (SFlagField bad_multibit) 0 true 1.
 Proof. exact multibit_refuted. Qed.
@@ -144,4 +224,42 @@ Example C09_ex_context :
   /\ s_deserialize (SContext [(47%Z, AFlag ex_flags); (9%Z, ANibbles)] (Some AIdentity)) 47 true 3
        = Some (SV (VTuple [EName (nm "A"); EName (nm "B")]))
   /\ s_deserialize (SContext [(47%Z, AFlag ex_flags); (9%Z, ANibbles)] (Some AIdentity)) 95 true 3 = Some (SV (VInt 3)).
+Proof. vm_compute. repeat split. Qed.
+
+(* unshifted bit fields (BitField(shift=False)), e.g. ParcelGridInfo: Type in the low 3 bits, Flags in place above *)
+Definition ex_grid_flags : cls :=
+  {| c_iter := [(nm "UNUSED", 8%Z); (nm "HIDDEN", 16%Z); (nm "SOUTH", 128%Z)];
+     c_names := [(nm "UNUSED", 8%Z); (nm "HIDDEN", 16%Z); (nm "SOUTH", 128%Z)] |}.
+Definition ex_unshifted : list bfield :=
+  [ {| bf_name := nm "Type"; bf_bits := 3; bf_adapter := AEnum false ex_enum |};
+    {| bf_name := nm "Flags"; bf_bits := 5; bf_adapter := AFlag ex_grid_flags |} ].
+Example C09_ex_unshifted :
+  registered_ok (SBitfield false ex_unshifted) U8 = true
+  /\ s_deserialize (SBitfield false ex_unshifted) 0 true 153
+       = Some (SDict [(nm "Type", VName (nm "LANDING")); (nm "Flags", VTuple [EName (nm "UNUSED"); EName (nm "HIDDEN"); EName (nm "SOUTH")])])
+  /\ lossless_atb (SBitfield false ex_unshifted) 0 true 153 = true.
+Proof. vm_compute. repeat split. Qed.
+
+(* a Bool entry away from bit 0 of an unshifted field is rejected by the well-formedness check *)
+Example C09_ex_unshifted_bool_refused :
+  registered_ok (SBitfield false [ {| bf_name := nm "a"; bf_bits := 7; bf_adapter := AIdentity |};
+                                   {| bf_name := nm "b"; bf_bits := 1; bf_adapter := ABool |} ]) U8 = false
+  /\ lossless_atb (SBitfield false [ {| bf_name := nm "a"; bf_bits := 7; bf_adapter := AIdentity |};
+                                     {| bf_name := nm "b"; bf_bits := 1; bf_adapter := ABool |} ]) 0 false 128 = false.
+Proof. vm_compute. split; reflexivity. Qed.
+
+Example C09_ex_literal :
+  print_plit (PTup [AStr (nm "A")]) = nm "('A',)"
+  /\ print_plit (PTup [AStr (nm "A"); AStr (nm "B"); AInt (-4)]) = nm "('A', 'B', -4)"
+  /\ parse_plit (nm "(5)") = Some (PAtom (AInt 5))
+  /\ parse_plit (nm "007") = None.
+Proof. vm_compute. repeat split. Qed.
+
+Example C09_ex_time_dilation : quant_field_ok ex_time_dilation U16 = true.
+Proof. exact ex_time_dilation_ok. Qed.
+
+Example C09_ex_date :
+  date_decode pf_ops utc 1 1636266600 = Some (nm "2021-11-07T06:30:00")
+  /\ date_roundtrip pf_ops utc 1 1636266600 = Some 1636266600%Z
+  /\ in_datetime_range 1636266600 = true.
 Proof. vm_compute. repeat split. Qed.
